@@ -192,3 +192,45 @@ Example C01_distribute_example :
   flat (GAlt [GSeq [GAlt [GSeq [GSym (T 0)]; GSeq [GSym (T 1)]]; GSym (T 2)]; GSeq [GSym (T 0); GSym (T 2)]])
   = [[T 0; T 2]; [T 1; T 2]].
 Proof. reflexivity. Qed.
+
+(* ---------------------------------------------------------------------------------------------------------- *)
+(* Round 12: the decisions of the hand models ARE the conditions of the source.  translator/gen_earley.py pins the
+   bodies of earley.Parser.predict_and_complete / _parse (scan) / parse, xearley.Parser._parse (scan),
+   grammar_analysis.update_set / calculate_sets / GrammarAnalyzer.__init__ / expand_rule and utils.bfs by source
+   templates (control skeleton, every statement touching the item sets, the order completer-before-predictor, the
+   `changed` flag, the raise sites) and regenerates their decision conditions into Gen/EarleySteps.v.  Earley/Steps.v
+   re-expresses the models over those generated conditions; the theorems below say the hand models are these
+   functions.  A semantically relevant edit of the source changes a generated condition (one of these proofs breaks)
+   or leaves the template (the regeneration breaks). *)
+From LV Require Import Gen.EarleySteps Earley.Steps Earley.Steps_proofs.
+
+(* basic lexer: predict_and_complete (is_complete test, Leo test, held completions, originators, expect-in-TERMINALS,
+   not-in-column), scan (match, expect-in-TERMINALS, the UnexpectedToken test), parse (initial items, the solutions
+   test `n.is_complete and n.node is not None and n.s == start_symbol and n.start == 0`, the UnexpectedEOF test) *)
+Theorem C01_basic_decisions_are_source G predictions (tok : Type) tmatch start (toks : list tok) :
+  parse G predictions tok tmatch start toks = g_parse G predictions tok tmatch start toks.
+Proof. exact (parse_gen G predictions tok tmatch start toks). Qed.
+Print Assumptions C01_basic_decisions_are_source.
+
+(* dynamic lexers: `if m`, delayed_matches[m.end()], complete_lex with range(1, len(s)) / s[:-j] / i+m.end(), the
+   carry-over filter for a completed start item, delayed_matches[i+1], `token is not None`, the UnexpectedCharacters
+   test.  The model's truncation oracle reports absolute ends, the source adds i to m.end() of the match on the
+   truncated window (rtrunc_abs). *)
+Theorem C01_dynamic_decisions_are_source G predictions start n rmatch rtrunc_rel complete_lex ignore :
+  dparse G predictions start n rmatch (rtrunc_abs rtrunc_rel) complete_lex ignore =
+  g_dparse G predictions start n rmatch rtrunc_rel complete_lex ignore.
+Proof. exact (dparse_gen G predictions start rmatch rtrunc_rel complete_lex ignore n). Qed.
+Print Assumptions C01_dynamic_decisions_are_source.
+
+(* grammar_analysis: NULLABLE by update_set with the `changed` flag; expand_rule through utils.bfs *)
+Theorem C01_analysis_decisions_are_source G a :
+  nullable_set G = g_nullable_set G /\ expand_rule G a = g_expand_rule G a.
+Proof. exact (conj (nullable_set_gen G) (expand_rule_gen G a)). Qed.
+Print Assumptions C01_analysis_decisions_are_source.
+
+Example C01_decisions_example :
+  r_out (g_parse ex_G (predictions ex_G) nat Nat.eqb 0 [0; 0; 0]) = Accept /\
+  r_out (g_parse ex_G (predictions ex_G) nat Nat.eqb 0 [0; 1]) = RejectTok 1 /\
+  g_nullable_set ex_G = [0; 1] /\
+  d_out (g_dparse f7_G (predictions f7_G) 0 3 f7_re (fun _ _ _ => None) true []) = DRejectChar 2.
+Proof. vm_compute. repeat split. Qed.
